@@ -211,6 +211,12 @@ def run(ctx):
             if not r2["ok"] and (r2.get("deviation") or "?") == cls:
                 again = r2
                 break
+        if again is None and cls == "C18/data-race":
+            # a report of the Go race detector is evidence in itself (it has no false positives and carries both
+            # stacks): a race that needs a rare overlap does not have to show again to count
+            r = dict(r)
+            r["what"] = (r.get("what") or "") + " [reported once; did not show again in %d fresh executions]" % MAX_REPRO
+            again = r
         if again is None:
             raise vlib.Broken("failure of a recorded run did not show again in %d fresh executions: %s" % (MAX_REPRO, json.dumps(r)[:800]))
         seen_classes[cls] = True
